@@ -114,7 +114,7 @@ pub fn check(sc: &Scenario, res: &RunResult) -> Vec<Violation> {
         let mem = k.read_mem_captured(g.start, size.min(0x20000) as usize);
         let file = if g.deleted { None } else { w.files.iter().find(|f| f.path.0 == g.name) };
         let mem_elf = elfref::parse(&mem);
-        let mut id = mem_elf.as_ref().and_then(|e| e.build_id());
+        let mut id = mem_elf.as_ref().and_then(|e| e.build_id_mem());
         let file_elf = file.and_then(|f| f.content.0.get(g.offset as usize..)).and_then(elfref::parse);
         if id.is_none() {
             // only when the memory image really starts with an ELF header is the file consulted
